@@ -97,3 +97,27 @@ Lemma w_generic_facts :
   analyse (pfuns (w_generic true)) = [[false; false]; [true]] /\
   run_elide 50 (w_generic true) = Ok [OSeq [1; 2; 3]; OSeq [9; 2; 3]].
 Proof. repeat split; vm_compute; reflexivity. Qed.
+
+(* forward declared functions (defect found on 9b42dd9, repaired by 394dd9c) and overloaded operators (3530cc0).
+   aendere(r Referenz): r := [7].   indirekt(t): aendere(t).   test(n): a := [1;2;3] (LOCAL); indirekt(a); print a.
+   Names: 1 = r, 2 = t, 3 = n, 4 = a.
+   The annotator had no VisitFuncDef: the body of 'Die Funktion aendere macht:' was analysed as part of the function
+   declared last, the table of the forward declared aendere kept saying "constant", so handing t on by Referenz did
+   not count as a write of t (first fact: the stale table; the caller's list is freed under it).  The repaired
+   annotator analyses the body at the declaration: in the model a forward declared function simply IS a function at
+   the position of its declaration, and a call of a function that is analysed later (no table yet) counts as a
+   write (`seen_const`).  The application of an overloaded operator is a call (SCall) of the overloading function. *)
+Definition w_forward : program :=
+  mkProg []
+         [mkFun [mkParam 1%nat true] [SAssign 1%nat (ELit [7])] None false;
+          mkFun [mkParam 2%nat false] [SCall None 0%nat [ARef 2%nat]] None false;
+          mkFun [mkParam 3%nat false]
+                [SDecl 4%nat (ELit [1; 2; 3]); SCall None 1%nat [AVal (EVar 4%nat)]; SPrint (EVar 4%nat)] None false]
+         [SCall None 2%nat [AVal (EInt 0)]].
+
+Lemma w_forward_facts :
+  run_with true [[true]; [true]; [true]] 50 w_forward = Er EUaf /\
+  run_with false [[true]; [true]; [true]] 50 w_forward = Ok [OSeq [1; 2; 3]] /\
+  analyse (pfuns w_forward) = [[false]; [false]; [true]] /\
+  run_elide 50 w_forward = Ok [OSeq [1; 2; 3]].
+Proof. repeat split; vm_compute; reflexivity. Qed.
